@@ -680,6 +680,44 @@ def guard_fn_summary(fn):
     return (names.index(a), names.index(b))
 
 
+def guard_fn_semantic(fn, call):
+    """The same summary by evaluation: a function of two or three integers returning Result<(), E> that fails exactly when `x > max`
+    (two parameters) or `x * k > max` (three) - found by calling it (call(path, [ints]) -> value) on a grid of values for every assignment of
+    the roles.  -> (index of x, index of max) or (index of x, index of max, index of k), else None"""
+    if fn is None or fn.get("hir") is None or "Result<()" not in (fn.get("output") or "").replace(" ", "").replace("std::result::", ""):
+        return None
+    n = len(fn["params"])
+    if n not in (2, 3):
+        return None
+    import itertools
+    grid = [0, 1, 2, 3, 7, 10, 100, 1000, 65535, 65536, 8388607, 8388608]
+
+    def ok(res):
+        return isinstance(res, tuple) and res and res[0] == "Ok"
+    for roles in itertools.permutations(range(n)):
+        xi, mi = roles[0], roles[1]
+        ki = roles[2] if n == 3 else None
+        good = True
+        for x in grid:
+            for mx in (0, 10, 1000, 65535, 8388607):
+                for k in ((1, 2, 4, 12) if n == 3 else (1,)):
+                    args = [0] * n
+                    args[xi], args[mi] = x, mx
+                    if ki is not None:
+                        args[ki] = k
+                    res = call(fn["path"], args)
+                    if res is None or ok(res) != (x * k <= mx):
+                        good = False
+                        break
+                if not good:
+                    break
+            if not good:
+                break
+        if good:
+            return (xi, mi) if n == 2 else (xi, mi, ki)
+    return None
+
+
 def grown_names(hir):
     """collections whose length may change after initialisation: receivers of growing methods, targets of assignments, and
     anything handed out by `&mut`"""
@@ -1098,8 +1136,14 @@ class Walker:
             args = H.call_args(gc)
             if idx is not None and idx[0] < len(args) and idx[1] < len(args):
                 bound = H.strip(args[idx[1]])
-                if H.lit_int(bound) is not None or H.tag(bound) == "path":
+                kf = 1
+                if len(idx) == 3:
+                    kr_ = self.r.rng(args[idx[2]], env, self.seq) if idx[2] < len(args) else None
+                    kf = kr_[0] if kr_ is not None and kr_[0] == kr_[1] and kr_[0] >= 1 else None
+                if kf is not None and (H.lit_int(bound) is not None or H.tag(bound) == "path"):
                     sl = self.scaled_local(args[idx[0]])
+                    if sl is not None:
+                        sl = (sl[0], sl[1] * kf)
                     if sl is not None:
                         prev = env.get("#ref:" + sl[0], self.seq)
                         self.seq += 1
